@@ -31,13 +31,21 @@ def gen_parse():
     chain = loops[1].body
     # a module that is an instance of a handled class but has its own forward is foreign: the guard loop that refuses it must be the
     # first statement of the dispatch loop, before the isinstance chain
+    # (a subclass may override forward or any method forward goes through, an instance may carry its own forward or forward hooks:
+    # a layer must be exactly one of the supported classes and unpatched; the same for the container)
     OVERRIDE_GUARD = ("for base in (LogicConv2d, LogicConv3d, OrPooling, LogicDense, GroupSum, torch.nn.Flatten, torch.nn.Identity):\n"
-                      "if isinstance(layer, base) and type(layer).forward is not base.forward:\n"
-                      "raise ValueError(f'Cannot compile a {type(layer).__name__}: it overrides the forward of {base.__name__}.')")
+                      "if isinstance(layer, base) and type(layer) is not base:\n"
+                      "raise ValueError(f'Cannot compile a {type(layer).__name__}: it is a subclass of {base.__name__}, not the layer itself.')")
+    PATCH_GUARD = ("if 'forward' in vars(module) or module._forward_hooks or module._forward_pre_hooks:\n"
+                   "raise ValueError(f'Cannot compile a {type(module).__name__} whose forward was replaced on the instance or that has forward hooks.')")
     override_refused = False
-    if len(chain) == 2 and isinstance(chain[0], ast.For) and _flat(ast.unparse(chain[0])) == OVERRIDE_GUARD:
+    if (len(chain) == 3 and isinstance(chain[0], ast.For) and _flat(ast.unparse(chain[0])) == OVERRIDE_GUARD
+            and ast.unparse(chain[1]) == "self._refuse_patched(layer)"
+            and [_flat(ast.unparse(st)) for st in _method(mod, "CompiledLogicNet", "_refuse_patched").body
+                 if not (isinstance(st, ast.Expr) and isinstance(st.value, ast.Constant))] == [PATCH_GUARD]
+            and "self._refuse_patched(self.model)" in [ast.unparse(st) for st in f.body]):
         override_refused = True
-        chain = chain[1:]
+        chain = chain[2:]
     if len(chain) != 1 or not isinstance(chain[0], ast.If):
         _fail("dispatch loop body is not a single if-chain")
     node = chain[0]
@@ -48,9 +56,18 @@ def gen_parse():
     head = [ast.unparse(st) for st in f.body if not (isinstance(st, ast.Expr) and isinstance(st.value, ast.Constant))][:2]
     resets = head == ["self.conv_layers, self.pooling_layers, self.linear_layers, self.linear_in_dims = ([], [], [], [])",
                       "self.layer_order, self.num_classes, self.input_shape = ([], None, None)"]
-    g = _method(mod, "CompiledLogicNet", "get_c_code")
-    gbody = [ast.unparse(st) for st in g.body if not (isinstance(st, ast.Expr) and isinstance(st.value, ast.Constant))][:2]
-    reparses = (len(gbody) == 2 and gbody[0].startswith("if self.model is None:\n    raise ValueError(") and gbody[1] == "self._parse_model(verbose=False)")
+    # get_c_code() = _translate()[0]; _translate works on a shallow copy (the tables of this object describe the installed library and
+    # change only when compile() installs a new one) and calls _generate_c_code, which refuses an instance without a model and re-parses
+    def body_of(name):
+        return [ast.unparse(st) for st in _method(mod, "CompiledLogicNet", name).body if not (isinstance(st, ast.Expr) and isinstance(st.value, ast.Constant))]
+    gbody = body_of("_generate_c_code")[:2]
+    reparses = (len(gbody) == 2 and gbody[0].startswith("if self.model is None:\n    raise ValueError(") and gbody[1] == "self._parse_model(verbose=False)"
+                and body_of("get_c_code") == ["return self._translate()[0]"]
+                and body_of("_translate") == ["work = copy.copy(self)", "code = work._generate_c_code()",
+                                              "return (code, {name: getattr(work, name) for name in self._TABLES})"])
+    tables = [ast.unparse(st.value) for st in ast.walk(mod) if isinstance(st, ast.Assign) and ast.unparse(st.targets[0]) == "_TABLES"]
+    if reparses and tables != ["('conv_layers', 'pooling_layers', 'linear_layers', 'linear_in_dims', 'layer_order', 'num_classes', 'input_shape')"]:
+        _fail("_TABLES is not the list of attributes _parse_model resets: " + repr(tables))
     handled = []
     else_kind = None
     flatten_default_only = False
